@@ -9,6 +9,8 @@ REFTRACE=harness/target/debug/reftrace
 for tc in $TCS; do
   for src in progs-src/*.rs; do
     name=$(basename "$src" .rs)
+    # sources with a .custom marker are built by a script of tools/progs.d/ only
+    if [ -f "progs-src/$name.custom" ]; then continue; fi
     out="progs/$name-$tc"
     flags="-g -C opt-level=0"
     if [ -f "progs-src/$name.flags" ]; then flags=$(cat "progs-src/$name.flags"); fi
@@ -24,3 +26,8 @@ for tc in $TCS; do
     fi
   done
 done
+# property-specific builds (own naming schemes, other compilers, link modes)
+for f in tools/progs.d/*.sh; do
+  [ -f "$f" ] && . "$f"
+done
+exit 0
